@@ -46,6 +46,8 @@ pub fn format(
         }
     }
 
+    // Blocks may nest, so their ranges do not arrive in ascending order.
+    open_structure_remove_range.sort_by_key(|r| r.start);
     merge_ranges(&mut ranges, open_structure_remove_range);
     merge_overlapped_ranges(&mut ranges);
 
